@@ -84,6 +84,35 @@ TEMPLATES = [
 ]
 
 
+def library_programs():
+    """every function of the base environment and bundled modules, and the binary operator forms, applied to
+    arguments from a pool that contains a set and a map of strings: results must not depend on the hash seed"""
+    from checks import C13
+    fns = C13.function_names()
+    pool = ["<< 'pear', 'apple', 'fig', 'kiwi', 'plum', 'lime' >>", "<<< 'pear' => 1, 'apple' => 2, 'fig' => 3, 'kiwi' => 4 >>>",
+            "['nut', 'date', 'oat']", "<< 'oat', 'pear', 'yam', 2, 1.5 >>", "2", "fn(x) x", "'fig'"]
+    skip = {"random", "choice", "choices", "sample", "set_seed", "date", "now", "timestamp", "file_output", "file_input", "make_dir", "file_copy",
+            "file_move", "file_delete", "list_dir", "file_info", "file_exists", "get_env", "which", "ls", "info", "read_file", "close"}
+    progs = []
+    for name, call in fns.items():
+        if name in skip:
+            continue
+        pre = "" if "->" not in call else "require %s; " % call.split("->")[0]
+        for a in pool[:4]:
+            progs.append((pre + "def r = %s(%s); [string(r), r]" % (call, a), "->" not in call))
+            for b in pool:
+                progs.append((pre + "def r = %s(%s, %s); [string(r), r]" % (call, a, b), "->" not in call))
+                if b is not a:
+                    progs.append((pre + "def r = %s(%s, %s); [string(r), r]" % (call, b, a), "->" not in call))
+    for f in ["$a + $b", "$a - $b", "$a * $b", "def c = $a; c += $b; c", "def c = $a; c -= $b; c", "$a == $b", "$a < $b", "$a in $b",
+              "[x for x in $a for y in $b]", "[[x, y] for x in $a also for y in $b]", "<<< $a => $b >>>", "<< $a, $b >>", "[$a, $b]",
+              "def f(p...) p...; f($a, ...$b)", "string($a) + $b", "$a !> add($b)"]:
+        for a in pool:
+            for b in pool:
+                progs.append(("def r = do %s end; [string(r), r]" % f.replace("$a", a).replace("$b", b), False))
+    return progs
+
+
 def run_seed(progs, seed, legacy=False):
     env = dict(os.environ, PYTHONHASHSEED=str(seed), PYTHONPATH=core.SRC)
     p = subprocess.run([core.PY, os.path.join(core.VERIF, "tools", "seedworker.py")] + (["legacy"] if legacy else []),
@@ -115,6 +144,24 @@ def main(tier, seed, replay=None):
     results = {}
     for sd in seeds:
         results[sd] = run_seed(progs, sd)
+    # the library enumeration (legacy and non-legacy environments)
+    lib = library_programs()
+    lib_leg = [p for p, lg in lib if lg]
+    lib_non = [p for p, lg in lib if not lg]
+    libres = {sd: run_seed(lib_leg, sd, True) + run_seed(lib_non, sd, False) for sd in seeds}
+    libprogs = lib_leg + lib_non
+    ldis = 0
+    for k, prog in enumerate(libprogs):
+        rep.count(len(seeds))
+        for sd in seeds[1:]:
+            if libres[sd][k] != libres[seeds[0]][k]:
+                ldis += 1
+                rep.violation("input", "%s gives %s under PYTHONHASHSEED=%s but %s under PYTHONHASHSEED=%s" % (
+                    prog, libres[sd][k], sd, libres[seeds[0]][k], seeds[0]), check="seed", program=prog, seeds=[seeds[0], sd])
+                break
+    rep.oblige("library enumeration: %d calls / operator forms on sets and maps of strings give identical results under %d hash seeds" % (
+        len(libprogs), len(seeds)), ldis == 0, "%d disagreements" % ldis)
+    rep.cov["library_calls"] = len(libprogs)
     base = results[seeds[0]]
     dis = 0
     three = 0
